@@ -108,7 +108,8 @@ Proof.
       assert (K : gkeeps k dna m) by (apply gk_bind; [apply gk_lift | intro; apply gk_on_src; intros; eapply choice_genes; eauto]);
       apply (K (with_exp st x)) end. exact H.
   - apply gk_bind; [apply gk_lift|]. intro tg.
-    apply gk_bind; [apply gk_lift | intro; apply gk_on_src; intros; eapply choice_weighted_genes; eauto].
+    apply gk_bind; [apply gk_lift|]. intro ws. destruct (forallb _ ws); [apply gk_fail|].
+    apply gk_on_src; intros; eapply choice_weighted_genes; eauto.
 Qed.
 
 Lemma gk_weighted_rows rows alphabet : gkeeps k dna (weighted_rows rows alphabet).
